@@ -59,7 +59,7 @@
 //    File: "miniz_oxide/src/inflate/core.rs", line 3954, in inflate::core::verif_inflate_core::k_arm_decode_litlen
 //   
 //   VERIFICATION:- FAILED
-//   Verification Time: 10.560799s
+//   Verification Time: 6.620987s
 //   
 //   Manual Harness Summary:
 //   Verification failed for - inflate::core::verif_inflate_core::k_arm_decode_litlen
